@@ -7,6 +7,7 @@ import (
 	"bytes"
 	"encoding/json"
 	"fmt"
+	"google.golang.org/protobuf/encoding/protowire"
 	"strings"
 
 	wrapping "github.com/hashicorp/go-kms-wrapping/v2"
@@ -53,6 +54,13 @@ func nodeSide(p *harness.Pool, a agreement, prev *agreement) *types.NodeCredenti
 	n.ServerEncryptionPublicKeyBytes = p.S[a.S].Pub
 	n.ServerEncryptionPublicKeyType = types.KEYTYPE_X25519
 	if prev != nil {
+		if prev.N == 1 {
+			// this object was re-keyed before, under the same certificate key
+			// (same key id): the later recording replaces the earlier one
+			if err := n.SetPreviousEncryptionKey(nodeSide(p, agreement{1 - prev.N, 1 - prev.S, prev.K}, nil)); err != nil {
+				panic(err)
+			}
+		}
 		old := nodeSide(p, *prev, nil)
 		if err := n.SetPreviousEncryptionKey(old); err != nil {
 			panic(err)
@@ -72,6 +80,11 @@ func serverSide(p *harness.Pool, a agreement, prev *agreement) *types.NodeInform
 		ServerEncryptionPrivateKeyType:  types.KEYTYPE_X25519,
 	}
 	if prev != nil {
+		if prev.N == 1 {
+			if err := n.SetPreviousEncryptionKey(serverSide(p, agreement{1 - prev.N, 1 - prev.S, prev.K}, nil)); err != nil {
+				panic(err)
+			}
+		}
 		old := serverSide(p, *prev, nil)
 		if err := n.SetPreviousEncryptionKey(old); err != nil {
 			panic(err)
@@ -114,7 +127,22 @@ func matches(a, b agreement) bool { return a == b }
 var msgKinds = []string{"FetchRequest", "FetchResponse", "NodeCredentials", "WrappingInfo", "Struct"}
 var sizes = []string{"empty", "typical", "4k"}
 
+// message returns a message of the kind and size and a blank result object.
+// The "typical" messages also carry a field their type does not declare (what
+// a newer peer's message looks like): it is part of the authenticated
+// plaintext and of what "the original plaintext" means.
 func message(kind, size string, seed int64) (proto.Message, proto.Message) {
+	m, blank := messageDeclared(kind, size, seed)
+	if size == "typical" {
+		var unk []byte
+		unk = protowire.AppendTag(unk, 1999, protowire.BytesType)
+		unk = protowire.AppendBytes(unk, []byte("a field of a later version"))
+		m.ProtoReflect().SetUnknown(unk)
+	}
+	return m, blank
+}
+
+func messageDeclared(kind, size string, seed int64) (proto.Message, proto.Message) {
 	n := 0
 	switch size {
 	case "typical":
@@ -522,7 +550,7 @@ func init() {
 	engine.Register(&engine.CheckDef{
 		ID:    "C11",
 		Level: "exploration",
-		Rule: "product of 8 key agreements (2 node keys x 2 server keys x 2 key ids) on the sending and receiving side, both directions, 5 message types x 3 sizes; every receiver current x previous combination (512 per direction); every successful open repeated into a result object that still holds another message of each size; application-supplied key producers with key ids from {empty, a, b} on either side of one secret; for one envelope per message kind/size every single-bit flip, every truncation length, every BlobInfo with a ciphertext of 0..40 bytes, field deletions, and every byte string of length 1 and 2 as envelope; " +
+		Rule: "product of 8 key agreements (2 node keys x 2 server keys x 2 key ids) on the sending and receiving side, both directions, 5 message types x 3 sizes; every receiver current x previous combination (512 per direction; in half of them the previous pair is recorded over an earlier recording under the same key id); every successful open repeated into a result object that still holds another message of each size; application-supplied key producers with key ids from {empty, a, b} on either side of one secret; for one envelope per message kind/size every single-bit flip, every truncation length, every BlobInfo with a ciphertext of 0..40 bytes, field deletions, and every byte string of length 1 and 2 as envelope; " +
 			"distinct_nontrivial counts cases (distinct by construction) other than mutated envelopes that no longer parse as a BlobInfo with at least a nonce (those die before the AEAD open and only exercise the no-crash clause)",
 		Assumptions: []string{"cryptographic strength of X25519 and AES-GCM is trusted; 'forged' means produced with other pool keys or by mutation", "random multi-byte mutations are not enumerated (all single-bit flips and truncations are)"},
 		Shards:      func(c *engine.Ctx) int { return 16 },
